@@ -681,6 +681,11 @@ func (m *mappedFile) newCounter(name string) (v *atomic.Uint64, m1 *mappedFile, 
 	if len(name) > maxNameLen {
 		return nil, nil, fmt.Errorf("counter name too long")
 	}
+	if len(name) == 0 {
+		// A record with an empty name is not valid in the file format:
+		// readers treat it as corruption of the whole file.
+		return nil, nil, fmt.Errorf("counter name empty")
+	}
 	orig := m
 	defer func() {
 		if m != orig {
